@@ -39,6 +39,9 @@ func (r *blockReader) Read(offset int64, key string) (string, bool) {
 // checkC12 wraps the index check with a two-object history: an index built
 // earlier and kept alive must answer the same after the case built another one.
 func checkC12(c *Case, s *Stats) error {
+	if c.Gen == "concurrent-round" {
+		return concurrentIndexes(c.Block, s)
+	}
 	var ekeys []string
 	for i := 0; i < 40; i++ {
 		ekeys = append(ekeys, fmt.Sprintf("rec/%02d/%s", i/4, strings.Repeat("s", i%5)+string([]byte{byte('a' + i%4)})))
